@@ -18,7 +18,7 @@ def run(ctx):
     ctx.assumptions = ["MaxOps is set as the readers set it (1e6); cumulative memory growth over many operations is out of scope"]
     # (a)
     summ, vec, base = pscommon.run_mbt(ctx, "MC_PSOps", {"Tier": '"%s"' % ctx.tier, "OpSet": '"hostile"'},
-                                       "pshostile", replay_args=("-crash-only", "-isolate"))
+                                       "pshostile", replay_args=("-crash-only", "-isolate"), timeout=3600)
     pscommon.absorb(ctx, summ, "vh replay-ps -crash-only (MC_PSOps hostile)", "PSMachine total: every operator returns")
     pscommon.crash_control(ctx, vec, base)
     ctx.extra["hostile_operator_vectors"] = summ["vectors"]
